@@ -5,13 +5,14 @@ or Err for EVERY byte string and either verify setting — no panic outcome, no 
 The estimator part (`estimate_no_panic`) covers all 15 panic sites of `estimate_preflate_parameters`,
 including the three debug assertions of the depth estimators whose unreachability rests on a
 non-local invariant (the depth tables mirror exactly what the estimated add policy inserted).
-Still outside: the assertion preconditions inside the match finder of `Chains.pred` (the transcription
-is total over Nat and does not model them; position arithmetic is covered by
-`chain_positions_in_u16_*`; the length calculator by `calc_bit_lengths_total`), stack, heap, running time.
+The match finder's own panic sites (`Chains.pred` is total over Nat) are made explicit by shadow
+checkers and proved unreachable (`match_finder_safe`, `public_match_finder_safe`); the length calculator
+by `calc_bit_lengths_total`. Still outside any model: stack, heap, running time.
 -/
 import Preflate.Props.C05
 import Preflate.Proofs.PublicTotal
 import Preflate.Proofs.HuffCalcT
+import Preflate.Proofs.ChainsSafePublic
 namespace Preflate
 
 /-- the complete parameter estimator reaches none of its panic sites on anything the parser can
@@ -55,6 +56,29 @@ theorem calc_bit_lengths_total (f : List Nat) (hu : ∀ x ∈ f, x < 65536) :
   · intro hl
     obtain ⟨l, h1, h2, _⟩ := HuffCalcT.calcBitLengths_spec f 7 (HuffCalcT.pre_codelen f hl hu)
     exact ⟨l, h1, h2⟩
+
+/-- THE MATCH FINDER AND HASH CHAINS (Model/ChainsSafe.lean: shadow checkers that mirror the control
+    flow of `TokenPredictor::new` / `predict_block` over every block and make every panic site explicit
+    — `prefix_compare`'s assertion and indexing, the slices of `cur_chars`, the 3/4-byte hash reads, the
+    u16 / i32 / u32 arithmetic of `match_token_offset`, `from_absolute`, `inc`, `dist`, the batch
+    assertions; `matchTokenC_eq`: whenever the checked search answers, it answers what the validated
+    `Chains.matchToken` answers): on a valid stream, for any in-range parameter vector that does not
+    combine lazy + zlib_compatible matching with a chain depth below 4 (`LazyDepthOK`: the one
+    reachable site, `max_chain -= 1`, outside what the estimator emits but inside `EstimatorRange`) and
+    under the estimator's own side condition for the 4 KiB policy, no site is reached. -/
+theorem match_finder_safe (p : Params) (plain : Array Nat) (blocks : List Block)
+    (hr : EstimatorRange p) (hlz : Proofs.LazyDepthOK p) (hsz : plain.size < 2147483648)
+    (hv : StreamValid plain blocks)
+    (h4k : p.addPolicy = 3 → Chains.NoRefAt4k 0 (Chains.streamLens blocks)) :
+    Chains.encStreamChk p plain blocks = .ok () :=
+  Proofs.encStreamChk_ok p plain blocks hr hlz hsz hv h4k
+
+/-- … and for the parameters the modelled estimator itself chooses, on everything the parser returns,
+    with no hypothesis left (the estimator never emits the excluded combination: `estimate_lazyDepthOK`) -/
+theorem public_match_finder_safe (d : List UInt8) (pr : Parsed) (hp : parse d = .ok pr) (p : Params)
+    (he : Est.estimate pr.plain pr.blocks = .ok p) :
+    Chains.encStreamChk p pr.plain pr.blocks = .ok () :=
+  Proofs.public_encStreamChk_ok d pr hp p he
 
 /-- ALL byte strings, either verify setting: Ok or Err -/
 theorem public_outcomes (verify : Bool) (d : List UInt8) :
